@@ -1,12 +1,14 @@
 SPECIFICATION Spec
 CONSTANTS
-  BaseIds = {3, 4}
+  BaseIds = {3}
   Toks = {"-q", "-vv", "--ansi", "--no-ansi", "-n", "-h", "-V"}
   MaxSw = 2
   LitToks = {"-q"}
   MaxLit = 1
   Behs = {"raise"}
   Streams = {"none"}
+  Rounds = 1
+  SecondIds = {1}
 INVARIANT H_inscope
 INVARIANT P_quiet
 INVARIANT P_verbosity
@@ -15,6 +17,7 @@ INVARIANT P_ansi
 INVARIANT P_nointeraction
 INVARIANT P_help
 INVARIANT P_version
+INVARIANT P_command
 INVARIANT P_afterdd
 INVARIANT A_runall
 INVARIANT Emit
